@@ -115,6 +115,16 @@ def _G(cell):
     return np.array([[a * a, a * b * cg, a * c * cb], [a * b * cg, b * b, b * c * ca], [a * c * cb, b * c * ca, c * c]])
 
 
+def _same_metric(G1, G2, tol=1e-8):
+    """metric tensors equal entry by entry RELATIVE to the lengths involved (|G1_ij - G2_ij| <= tol * |v_i| |v_j|): with an
+    absolute tolerance scaled by the largest entry, a needle-shaped lattice (one edge 100x the others) would let errors of
+    1e-4 in the short edges pass unnoticed"""
+    d = np.sqrt(np.abs(np.diag(G2)))
+    if not np.all(d > 0):
+        return False
+    return bool(np.allclose(G1 / np.outer(d, d), G2 / np.outer(d, d), rtol=0, atol=tol))
+
+
 def check(case, ctx):
     from xfab import tools, laue
     m = case["mod"]
@@ -168,7 +178,7 @@ def check(case, ctx):
             # (ranges without an admissible triple have no defined answer and are skipped)
             Gp = _G(pre_out)
             scp = np.max(np.abs(Gp))
-            if not any(np.allclose(R @ R.T, Gp, rtol=0, atol=1e-8 * scp) or np.allclose(R.T @ R, Gp, rtol=0, atol=1e-8 * scp) for (_, _, _, R) in cp):
+            if not any(_same_metric(R @ R.T, Gp) or _same_metric(R.T @ R, Gp) for (_, _, _, R) in cp):
                 ctx.fail("wrong-vectors-uvw%d/%s" % (pre, m), "%s.reduce_cell(%r, uvw=%d) = %r is not built from the shortest non-coplanar vectors of that range" % (m, cell, pre, pre_out))
     if integral:
         carg = [int(x) for x in case["cell"]] if (case["cell"][0] % 2) else np.array(case["cell"], dtype=int)
@@ -187,9 +197,9 @@ def check(case, ctx):
     ctx.near("volume", abs(V_out / V_in - 1), 1e-8, "volume-changed/" + m, "%s.reduce_cell(%r) = %r changes the volume %r -> %r" % (m, cell, out, V_in, V_out))
     cands = candidate_bases(A, -3, 3)
     sc = np.max(np.abs(Gout))
-    correct = any(np.allclose(R @ R.T, Gout, rtol=0, atol=1e-8 * sc) for (_, _, _, R) in cands)
-    bug = any(np.allclose(R.T @ R, Gout, rtol=0, atol=1e-8 * sc) for (_, _, _, R) in cands)
-    normal = all(np.allclose(R @ R.T, R.T @ R, rtol=0, atol=1e-8 * sc) for (_, _, _, R) in cands)
+    correct = any(_same_metric(R @ R.T, Gout) for (_, _, _, R) in cands)
+    bug = any(_same_metric(R.T @ R, Gout) for (_, _, _, R) in cands)
+    normal = all(_same_metric(R @ R.T, R.T @ R) for (_, _, _, R) in cands)
     ctx.nontrivial((not normal) or transformed)
     ctx.event("transformed" if transformed else "direct")
     ctx.event("normal-basis-matrix" if normal else "non-normal-basis-matrix")
